@@ -26,11 +26,32 @@ PH_COLS = ["change_scores", "page_hinkley_values", "page_hinkley_differences", "
 
 def scenarios(tier):
     k = 1 if tier == "quick" else 10
-    return [("cusum_est", 350 * k), ("cusum_known", 250 * k), ("ph", 500 * k)]
+    return [("cusum_est", 350 * k), ("cusum_known", 250 * k), ("ph", 500 * k), ("cusum_grid", 250 * k), ("ph_grid", 150 * k)]
+
+
+def _grid_stream(rng, n):
+    """values on a dyadic grid (multiples of 0.25) so that the statistics are exact and land exactly on thresholds"""
+    level = rng.choice([0.0, 0.0, 0.5, -0.5])
+    out = []
+    for _ in range(n):
+        if rng.random() < 0.03:
+            level = rng.choice([0.0, 0.5, 1.0, -0.5, -1.0, 2.0])
+        out.append(level + rng.choice([-0.5, -0.25, 0.0, 0.0, 0.25, 0.5]))
+    return out
 
 
 def gen(rng, scenario, tier):
     n = rng.randint(60, 500)
+    if scenario == "cusum_grid":
+        xs = _grid_stream(rng, rng.randint(40, 200))
+        cfg = {"det": "cusum", "burn_in": rng.choice([2, 4, 8]), "delta": rng.choice([0.0, 0.25, 0.5]), "threshold": rng.choice([1, 2, 3, 5]),
+               "direction": rng.choice([None, "positive", "negative"]), "target": 0.0, "sd_hat": rng.choice([0.25, 0.5, 1.0])}
+        return {"cfg": cfg, "events": xs, "drift_positions": []}
+    if scenario == "ph_grid":
+        xs = [v + rng.choice([1.0, 2.0, 0.0]) for v in _grid_stream(rng, rng.randint(40, 200))]
+        cfg = {"det": "ph", "burn_in": rng.choice([0, 2, 8]), "delta": rng.choice([0.0, 0.25, 0.5]), "threshold": rng.choice([1, 2, 4]),
+               "direction": rng.choice(["positive", "negative"])}
+        return {"cfg": cfg, "events": xs, "drift_positions": []}
     if scenario == "ph":
         xs, drifts = workload.stream_values(rng, n, kind=rng.choice(["gauss", "gauss", "ramp", "heavy", "bern"]))
         cfg = {"det": "ph", "burn_in": rng.choice([0, 1, 2, 5, 10, 25]), "delta": rng.choice([0.005, 0.1, 0.5]),
@@ -42,8 +63,9 @@ def gen(rng, scenario, tier):
                "threshold": rng.choice([3, 5, 10, 25]), "direction": rng.choice([None, "positive", "negative"]),
                "target": None, "sd_hat": None}
         if scenario == "cusum_known":
-            cfg["target"] = round(sum(xs[:20]) / 20, 2)
             cfg["sd_hat"] = rng.choice([0.5, 1.0, 2.0])
+            # on target, or off target by a few standard deviations (the statistic then moves inside the burn-in already)
+            cfg["target"] = round(sum(xs[:20]) / 20 + rng.choice([0, 0, 1.5, -1.5, 3.0]) * cfg["sd_hat"], 2)
     return {"cfg": cfg, "events": xs, "drift_positions": drifts}
 
 
@@ -80,7 +102,7 @@ def run_ph(case, ctx):
         got = det.drift_state
         exp = "drift" if last["alarm"] else None
         if got != exp:
-            if last["margin"] <= 1e-9 * scale:
+            if last["margin"] <= 1e-9 * scale:   # (the running mean is a quotient: Page-Hinkley arithmetic is never exact, ties are not judged)
                 ctx.near_tie()
             ctx.violation("decision", "C04:ph:decision",
                           f"sample {t} (epoch {epoch_no}, n={len(epoch)}): model {exp!r} (difference {last['page_hinkley_differences']:.6g} vs theta {last['theta_threshold']:.6g}), detector {got!r}; cfg={cfg}")
@@ -143,7 +165,7 @@ def run_cusum(case, ctx):
         exp = "drift" if alarm else None
         got = det.drift_state
         if got != exp:
-            if margin <= 1e-9 * max(1.0, cfg["threshold"]):
+            if 0.0 < margin <= 1e-9 * max(1.0, cfg["threshold"]):   # exact ties are judged ("exceeds" is strict)
                 ctx.near_tie()
             ctx.violation("decision", "C04:cusum:decision",
                           f"sample {t} (epoch {epoch_no}, n={len(epoch)}): model {exp!r} (s_h={sh:.6g}, s_l={sl:.6g}, threshold {cfg['threshold']}, target={target}, sd={sd}), detector {got!r}; cfg={cfg}")
